@@ -95,6 +95,9 @@ pub enum TokM {
     Timer(TimerM),
     /// number + known unit in the text (an inline quantity when INLINE_QUANTITIES is on)
     Inline { number: String, unit: String, glued: bool },
+    /// source kept verbatim: a component written inside a text-mode step, which the parser ignores (with a
+    /// warning) and keeps as the text it was written as
+    Raw(String),
 }
 
 #[derive(Debug, Clone, PartialEq, Serialize, Deserialize)]
